@@ -155,3 +155,113 @@ def run_ids(repo):
     finally:
         if scratch and os.path.exists(scratch):
             shutil.rmtree(scratch, ignore_errors=True)
+
+
+LEAVES_HARNESS = r"""
+#[cfg(kani)]
+mod verif_leaves {
+    use super::*;
+    const N: usize = @N@;
+
+    /// independent UTF-8 decoder (RFC 3629 table): (scalar value, width) of the character starting at b[i]; the input is known to be valid UTF-8
+    fn decode(b: &[u8], i: usize) -> (u32, usize) {
+        let b0 = b[i] as u32;
+        if b0 < 0x80 {
+            (b0, 1)
+        } else if b0 < 0xE0 {
+            (((b0 & 0x1F) << 6) | (b[i + 1] as u32 & 0x3F), 2)
+        } else if b0 < 0xF0 {
+            (((b0 & 0x0F) << 12) | ((b[i + 1] as u32 & 0x3F) << 6) | (b[i + 2] as u32 & 0x3F), 3)
+        } else {
+            (((b0 & 0x07) << 18) | ((b[i + 1] as u32 & 0x3F) << 12) | ((b[i + 2] as u32 & 0x3F) << 6) | (b[i + 3] as u32 & 0x3F), 4)
+        }
+    }
+
+    /// the assumed contracts of peek / peek2 / step in contracts/lexer.vc, for every valid UTF-8 string of <= N bytes at every character boundary
+    #[kani::proof]
+    #[kani::unwind(@U@)]
+    fn leaves_contract() {
+        let buf: [u8; N] = kani::any();
+        let len: usize = kani::any();
+        kani::assume(len <= N);
+        let s = match std::str::from_utf8(&buf[..len]) {
+            Ok(s) => s,
+            Err(_) => return,
+        };
+        let pos: usize = kani::any();
+        kani::assume(pos <= len && s.is_char_boundary(pos));
+        let escape: bool = kani::any();
+        let mut lx = Lexer { source: s, pos, escape };
+        if pos == len {
+            assert!(lx.peek().is_none(), "[lexer.peek.def] end of input");
+            assert!(lx.peek2().is_none(), "[lexer.peek2.def] end of input");
+            lx.step();
+            assert!(lx.pos == pos && lx.escape == escape, "[lexer.step.def] no-op at the end");
+        } else {
+            let (c0, w0) = decode(&buf, pos);
+            assert!(lx.peek().map(|c| c as u32) == Some(c0), "[lexer.peek.def] first character");
+            let second = if pos + w0 < len { decode(&buf, pos + w0).0 } else { 0 };
+            let p2 = lx.peek2();
+            assert!(p2.map(|(a, b)| (a as u32, b as u32)) == Some((c0, second)), "[lexer.peek2.def] first two characters");
+            assert!(lx.pos == pos, "[lexer.peek2.def] peek2 does not move");
+            lx.step();
+            assert!(lx.pos == pos + w0 && lx.escape == escape, "[lexer.step.def] advances by the width of the first character");
+            assert!(w0 >= 1 && w0 <= 4 && lx.pos <= len && s.is_char_boundary(lx.pos), "[lexer.step.def] lands on a character boundary inside the input");
+        }
+    }
+
+    /// vacuity canary: must FAIL (a non-ASCII first character is reachable)
+    #[kani::proof]
+    #[kani::unwind(@U@)]
+    fn leaves_canary_must_fail() {
+        let buf: [u8; N] = kani::any();
+        let s = match std::str::from_utf8(&buf[..]) {
+            Ok(s) => s,
+            Err(_) => return,
+        };
+        let lx = Lexer { source: s, pos: 0, escape: false };
+        assert!(lx.peek().map(|c| (c as u32) < 0x80).unwrap_or(true), "[leaves.canary]");
+    }
+}
+"""
+
+
+def run_leaves(repo, nbytes=4):
+    """bounded Kani check of the three trusted str leaves of the lexer (labelled bounded: strings of <= nbytes bytes)"""
+    scratch = None
+    try:
+        scratch = scratch_copy(repo)
+        p = os.path.join(scratch, "src", "syntax", "lexer.rs")
+        s = open(p, encoding="utf-8").read()
+        for sig in ("fn peek(&self) -> Option<char>", "fn peek2(&mut self) -> Option<(char, char)>", "fn step(&mut self)"):
+            if s.count(sig) != 1:
+                return dict(status="undecided", undecided=[dict(reason="lost-anchor", message=f"src/syntax/lexer.rs: `{sig}` not found")], failures=[], obligations=0, discharged=0, wall_s=0, harnesses={})
+        open(p, "w", encoding="utf-8").write(s + LEAVES_HARNESS.replace("@N@", str(nbytes)).replace("@U@", str(nbytes + 2)))
+        r = run_kani(scratch, ["leaves_contract", "leaves_canary_must_fail"])
+        failures, undecided = [], []
+        hr = r["harnesses"].get("leaves_contract")
+        cn = r["harnesses"].get("leaves_canary_must_fail")
+        obligations, discharged = 3, 0
+        if hr is None or cn is None:
+            undecided.append(dict(reason="tooling", message=f"kani produced no result: {r['raw_tail'][-600:]}"))
+        else:
+            if cn["success"] or not cn["failed"]:
+                undecided.append(dict(reason="vacuous", message="Kani canary harness did not fail"))
+            if hr["success"]:
+                discharged = 3
+            elif hr["failed"]:
+                cids = set()
+                for f in hr["failed"]:
+                    m = re.search(r"\[([\w.]+)\]", f)
+                    cid = m.group(1) if m else "lexer.leaves"
+                    if cid not in cids:
+                        cids.add(cid)
+                        failures.append(dict(obligation=f"src/syntax/lexer.rs :: impl<'a> Lexer<'a> :: [{cid}] (Kani, strings <= {nbytes} bytes)", harness="leaves_contract", detail=f))
+                discharged = max(0, 3 - len(cids))
+            else:
+                undecided.append(dict(reason="tooling", message=f"harness neither succeeded nor reported a failed check (unwinding?): {r['raw_tail'][-600:]}"))
+        status = "undecided" if undecided else ("failed" if failures else "verified")
+        return dict(status=status, failures=failures, undecided=undecided, obligations=obligations, discharged=discharged, wall_s=r["wall_s"], harnesses=r["harnesses"], cmd=r["cmd"], nbytes=nbytes)
+    finally:
+        if scratch and os.path.exists(scratch):
+            shutil.rmtree(scratch, ignore_errors=True)
